@@ -195,3 +195,95 @@ def c24_explore(prog, mode, bound, max_runs, seed):
             it = ls.explore_random(sc, max_runs, seed, p_switch=0.35, trace_files=files, native_timeout=1.5)
         for ex in it:
             yield ex
+
+
+# --------------------------------------------------------------------------- C24: concurrent first calls of fileno()
+
+def fileno_programs():
+    """(init out, init err), number of callers, transport ops"""
+    progs = []
+    for init in ((1, 0), (0, 1), (0, 0), (1, 1)):
+        for ncall in (2, 3):
+            for tops in ([], ["f1"], ["f2"], ["f1", "f2"]):
+                if init == (0, 0) and not tops:
+                    continue
+                progs.append({"init": init, "callers": ncall, "T": tops})
+    return progs
+
+
+def fileno_scenario(prog):
+    import os
+    import select
+    from harness.drivers import chan as dchan
+
+    def scenario(S):
+        ch, ft = dchan.make_channel()
+        if prog["init"][0]:
+            ch._feed(dchan.msg_data(b"o" * prog["init"][0]))
+        if prog["init"][1]:
+            ch._feed_extended(dchan.msg_ext(1, b"e" * prog["init"][1]))
+        events, got = [], {}
+
+        def caller(k):
+            def body():
+                got[k] = ch.fileno()
+            return body
+
+        def tbody():
+            for op in prog["T"]:
+                if op == "f1":
+                    ch._feed(dchan.msg_data(b"x"))
+                else:
+                    ch._feed_extended(dchan.msg_ext(1, b"y"))
+                events.append({"op": op, "n": 1})
+        for k in range(prog["callers"]):
+            S.spawn(caller(k), "F%d" % (k + 1))
+        if prog["T"]:
+            S.spawn(tbody, "T")
+
+        def after(ex):
+            quiescent = not (ex.hang or ex.stuck or ex.budget_exhausted) and len(got) == prog["callers"]
+            fds = []
+            pipes_seen = set(got.values())
+            try:
+                cur = ch._pipe.fileno() if ch._pipe is not None else -1
+                for k in range(prog["callers"]):
+                    fd = got.get(k)
+                    if fd is None:
+                        fds.append({"same": False, "readable": False})
+                        continue
+                    r, _, _ = select.select([fd], [], [], 0)
+                    fds.append({"same": fd == cur, "readable": bool(r)})
+            finally:
+                p = ch._pipe
+                ch._pipe = None
+                if p is not None:
+                    try:
+                        p.close()
+                    except OSError:
+                        pass
+                for fd in pipes_seen:       # orphaned pipes of a tree that creates more than one (read ends only are known)
+                    try:
+                        os.close(fd)
+                    except OSError:
+                        pass
+            return {"init": list(prog["init"]), "events": list(events),
+                    "obs": {"out": len(ch.in_buffer._buffer), "err": len(ch.in_stderr_buffer._buffer), "fds": fds},
+                    "quiescent": quiescent}
+        return after
+    return scenario
+
+
+def fileno_explore(prog, mode, bound, max_runs, seed):
+    import paramiko.channel as pch
+    import paramiko.buffered_pipe as bp
+    import paramiko.pipe as pp
+    sc = fileno_scenario(prog)
+    files = {pch.__file__}
+    with ls.patched(bp, pch, pp):
+        if mode == "dfs":
+            it = ls.explore_dfs(sc, bound=bound, max_runs=max_runs, trace_files=files, native_timeout=1.5)
+        else:
+            it = ls.explore_random(sc, max_runs, seed, p_switch=0.35, trace_files=files, native_timeout=1.5)
+        for ex in it:
+            yield ex
